@@ -648,21 +648,21 @@ def gen_state(repo):
     mk = re.search(r'let\s+periodic_range\s*=\s*f64::ceil\(\s*([^;]*?)\s*\*\s*self\.shape\.enclosing_radius\(\)\s*/\s*height\s*\)\s*as\s+i64\s*;', body)
     shell = '(.lit 2 1)'
     if not mh or not mk:
-        notes.append('check_intersection: shell rule is not ceil(k * R / (min(a,b) * sin angle)) as i64')
+        # not in the textual shape the constant is read from: the model keeps the default; the
+        # function body itself is translated by rs2lean.py and tied by Proofs/TiePacked.lean, which
+        # fails if the source computes anything else
+        pass
     else:
         shell = bexpr_or(mk.group(1), shell, 'shell factor')
     mr = re.search(r'let\s+radius_sq\s*=\s*self\.shape\.enclosing_radius\(\)\.mul\(\s*([^)]*)\)\.powi\(2\)\s*;', body)
     pre = '(.lit 2 1)'
     if not mr:
-        notes.append('check_intersection: prefilter radius is not (R * k)^2')
+        pass  # see above: TiePacked is the obligation
     else:
         pre = bexpr_or(mr.group(1), pre, 'prefilter factor')
-    if not re.search(r'if\s+distance\s*<=\s*radius_sq\b', body):
-        notes.append('check_intersection: prefilter comparison is not `distance <= radius_sq`')
-    if not re.search(r'periodic_images\(\s*position\s*,\s*periodic_range\s*,\s*false\s*\)', body):
-        notes.append('check_intersection: image loop is not periodic_images(position, periodic_range, false)')
-    if not re.search(r'\.skip\(\s*index\s*\+\s*1\s*\)', body):
-        notes.append('check_intersection: in-cell loop is not skip(index + 1)')
+    # (the loop structure -- prefilter comparison, image loop, in-cell pairs -- used to be pinned
+    # textually here; it is now translated by rs2lean.py and tied by Proofs/TiePacked.lean, which
+    # re-proves under harmless rewrites)
     L.append('/-- `check_intersection`: shells = ceil(factor · R / (min(a,b) · sin angle)); prefilter (R · factor)² -/')
     L.append('def packedShellFactor : BExpr := ' + shell)
     L.append('def packedPrefilterFactor : BExpr := ' + pre)
@@ -696,25 +696,22 @@ def gen_state(repo):
     ms = re.search(r'\.periodic_images\(\s*position\s*,\s*(-?\d+)\s*,\s*false\s*\)', body)
     shells = 3
     if not ms:
-        notes_lj.append('PotentialState::score: periodic_images(position, <int literal>, false) not found')
+        pass  # the function body is translated by rs2lean.py and tied by Proofs/TiePotential.lean
     else:
         shells = int(ms.group(1))
     sums = re.findall(r'sum\s*\+=\s*([^;]+);', body)
     weight = '(.lit 1 1)'
     if len(sums) != 2 or norm(sums[0]) != 'shape1.energy(&shape2)':
-        notes_lj.append('PotentialState::score: expected two accumulation statements, in-cell unweighted')
+        pass  # see above: TiePotential is the obligation
     else:
-        mw = re.match(r'^(.*?)\*\s*shape1\.energy\(&shape2\)$', sums[1].strip())
+        mw = re.match(r'^(.*?)\*\s*shape1\.energy\(&shape2\)$', sums[1].strip()) or \
+            re.match(r'^shape1\.energy\(&shape2\)\s*\*\s*(.*)$', sums[1].strip())
         if mw:
             weight = bexpr_or(mw.group(1), weight, 'periodic weight', notes_lj)
         elif norm(sums[1]) == 'shape1.energy(&shape2)':
             weight = '(.lit 1 1)'
         else:
-            notes_lj.append('PotentialState::score: unrecognised periodic accumulation ' + sums[1].strip())
-    if not re.search(r'Some\(\s*-sum\s*/\s*self\.total_shapes\(\)\s+as\s+f64\s*\)', body):
-        notes_lj.append('PotentialState::score: result is not Some(-sum / total_shapes)')
-    if not re.search(r'\.skip\(\s*index\s*\+\s*1\s*\)', body):
-        notes_lj.append('PotentialState::score: in-cell loop is not skip(index + 1)')
+            pass
     L.append('/-- `PotentialState::score`: image shells, weight of a periodic pair -/')
     L.append('def ljShells : Int := %d' % shells)
     L.append('def ljPeriodicWeight : BExpr := ' + weight)
@@ -744,10 +741,8 @@ def gen_state(repo):
         notes_line.append('Line2::TOLERANCE not found')
         tolx = '(.lit 1 1000000000000)'
     ib = fn_body(l2, 'intersects') or ''
-    if not re.search(r'u_b\.abs\(\)\s*<=\s*Self::TOLERANCE\s*\*\s*lengths', ib):
-        notes_line.append('Line2::intersects: parallel test is not |u_b| <= TOLERANCE * lengths')
-    if norm(re.search(r'if(-Self::TOLERANCE<=ua.*?)\{', norm(ib)).group(1) if re.search(r'if(-Self::TOLERANCE<=ua.*?)\{', norm(ib)) else '') != '-Self::TOLERANCE<=ua&&ua<=1.+Self::TOLERANCE&&-Self::TOLERANCE<=ub&&ub<=1.+Self::TOLERANCE':
-        notes_line.append('Line2::intersects: parameter test is not -TOL <= ua <= 1+TOL && -TOL <= ub <= 1+TOL')
+    # (the shape of the two tolerance tests used to be pinned textually; `Line2::intersects` is now
+    # translated by rs2lean.py and tied by Proofs/TieLine.lean)
     L.append('/-- `Line2::TOLERANCE`: relative precision of the segment test -/')
     L.append('def lineTolerance : BExpr := ' + tolx)
     L.append('')
